@@ -1655,6 +1655,7 @@ func totality(r *core.Run, fams []*family, maxLen int) {
 // ---------------------------------------------------------------------------
 
 func main() {
+	core.SuperviseSelf("C09") // a runtime fatal error inside the code under test is a finding, not a harness error
 	r := core.Start("C09")
 	selfTest()
 	quick := r.Quick()
